@@ -94,9 +94,12 @@ def gen_random(seed: int, n: int, long_p: float = 0.1) -> List[Dict[str, Any]]:
                 steps.append([t, "add", rng.randint(1, len(srcs)), spec])
             elif sid:
                 steps.append([t, "remove", rng.randint(1, len(srcs)), rng.randint(1, sid)])
-        for src in srcs:                  # every third schedule is created the public way: kicker.schedule_by_*(source, ...)
+        for si, src in enumerate(srcs):   # every third schedule is created the public way: kicker.schedule_by_*(source, ...)
+            src["edit"] = si % 2 == 1     # this source's pre_send stamps a label on the schedule it is about to let through
             for x in src["sched"]:
                 x["viak"] = x["sid"] % 3 == 0
+                if x["kind"] == "once" and not x.get("naive"):
+                    x["tzh"] = (0, 2, -7, 13)[x["sid"] % 4]        # target time written on clocks with different UTC offsets
         for st in steps:
             if st[1] == "add":
                 st[3]["viak"] = st[3]["sid"] % 3 == 0
